@@ -40,7 +40,14 @@ UNIT = {
     ],
 }
 NOT_DECIDED = {'C18': ['well-formedness of the JSON text (serde / jsonify are string code: Value::jsonify does not escape strings - outside this family, see DESIGN.md)',
-                       'TCK DTO round trip (dto.rs), actix routing, lock handling, survival after malformed requests',
+                       'TCK DTO round trip: only the BOUNDED stand-in tck-dto-round-trip (dto.rs is not under contract); actix routing, lock handling, survival after malformed requests',
                        'do_evaluate / do_evaluate_tck take &Workspace: they cannot modify it (enforced by the type checker, not by a contract)']}
 ASSUMPTIONS = ['the workspace operations are uninterpreted state transformers here; their meaning is proved in unit workspace (C17)',
                'base64::decode, String::from_utf8 and dmntk_model::parse are total functions returning a Result (R11 stubs)']
+
+BOUNDED = {
+    'C18': [{'name': 'tck-dto-round-trip', 'driver': 'tck', 'args': [],
+             'functions': ['server/src/dto.rs (compiled into the driver from the repository file): TryFrom<&Value> for ValueDto, TryFrom<&ValueDto / &SimpleDto / &Vec<ComponentDto> / &ComponentDto / &ListDto / &Vec<ValueDto>> for WrappedValue', 'serde_json (real)'],
+             'bound': '650 values: 31 scalars of every TCK kind (strings with quotes, backslashes, control and non-ASCII characters; numbers; booleans; null; dates; times with and without offset; date-times; both duration kinds) and the lists / '
+                      'contexts built from them to nesting depth 2 (empty, singleton, pairs, names with spaces): value -> DTO -> JSON text -> DTO -> value gives the value back (null messages aside)'}],
+}
